@@ -89,6 +89,67 @@ def copy_levels(funcs: Dict[str, ast.FunctionDef], name: str, args: List[Any]) -
     return None
 
 
+PRIMITIVES = {"merge_all": ("add", 0), "merge_existing": "none"}      # what the two primitives of internal_util do with a key only the other dict has
+
+
+def _on_primitives(funcs, fn: ast.FunctionDef, name: str, tgt: str, oth: str, env: Dict[str, Any], max_levels: int) -> Optional[List[Level]]:
+    """A helper written on top of the two primitives: `if depth == 0: return target | other` followed by
+    `return merge_all | merge_existing(lambda a, b: helper(a, b, depth - 1) | a | b, target, other)`.  The primitive merges one level
+    (a key that both have gets the lambda's value, a key that only the other has is added by reference / ignored); the recursion is
+    unrolled along the constant depth.  None if the function is not of this form."""
+    body = [st for st in fn.body if not (isinstance(st, ast.Expr) and isinstance(st.value, ast.Constant))]
+    if not body or not isinstance(body[-1], ast.Return) or not isinstance(body[-1].value, ast.Call):
+        return None
+    call = body[-1].value
+    pname = call.func.id if isinstance(call.func, ast.Name) else (call.func.attr if isinstance(call.func, ast.Attribute) else None)
+    if pname not in PRIMITIVES or len(call.args) != 3 or not isinstance(call.args[0], ast.Lambda):
+        return None
+    if not (isinstance(call.args[1], ast.Name) and call.args[1].id == tgt and isinstance(call.args[2], ast.Name) and call.args[2].id == oth):
+        return None
+    lam = call.args[0]
+    if len(lam.args.args) != 2:
+        return None
+    la, lb = lam.args.args[0].arg, lam.args.args[1].arg
+    params = [a.arg for a in fn.args.args] + [a.arg for a in fn.args.kwonlyargs]
+    levels: List[Level] = []
+    cur = dict(env)
+    for _ in range(max_levels + 1):
+        # early exits on the constants
+        done = None
+        for st in body[:-1]:
+            if isinstance(st, ast.If) and not st.orelse and len(st.body) == 1 and isinstance(st.body[0], ast.Return):
+                if _const(st.test, cur):
+                    r = st.body[0].value
+                    done = "old" if isinstance(r, ast.Name) and r.id == tgt else ("new" if isinstance(r, ast.Name) and r.id == oth else "?")
+                    break
+            elif isinstance(st, ast.Assert):
+                continue
+            else:
+                raise NotUnderstood(f"statement at line {st.lineno} of {name}")
+        if done is not None:
+            if done == "?" or not levels:
+                raise NotUnderstood(f"base case of {name}")
+            levels[-1]["both"] = done
+            return levels
+        lv: Level = {"only_other": PRIMITIVES[pname]}
+        b = lam.body
+        if isinstance(b, ast.Name) and b.id in (la, lb):
+            lv["both"] = "old" if b.id == la else "new"
+            levels.append(lv)
+            return levels
+        if isinstance(b, ast.Call) and isinstance(b.func, ast.Name) and b.func.id == name and len(b.args) >= 2 \
+                and isinstance(b.args[0], ast.Name) and b.args[0].id == la and isinstance(b.args[1], ast.Name) and b.args[1].id == lb:
+            lv["both"] = "recurse"
+            levels.append(lv)
+            nxt = dict(cur)
+            for pn, a in list(zip(params[2:], b.args[2:])) + [(k.arg, k.value) for k in b.keywords]:
+                nxt[pn] = _const(a, cur)
+            cur = nxt
+            continue
+        raise NotUnderstood(f"the merger of {name} is neither a projection nor the recursive call")
+    raise NotUnderstood(f"{name} does not reach its base case")
+
+
 def summarise(funcs: Dict[str, ast.FunctionDef], name: str, consts: Dict[str, Any], max_levels: int = 6) -> List[Level]:
     """Level summary of helper `name` called with the constant arguments `consts` (parameter name -> value; parameters that are
     not given take their constant defaults).  The first two parameters are (target, other)."""
@@ -111,6 +172,9 @@ def summarise(funcs: Dict[str, ast.FunctionDef], name: str, consts: Dict[str, An
     for p in params[2:]:
         if p not in env:
             raise NotUnderstood(f"argument {p} of {name} is not a constant")
+    prim = _on_primitives(funcs, fn, name, tgt, oth, env, max_levels)
+    if prim is not None:
+        return prim
     level: Level = {}
     deeper: Optional[List[Level]] = None
 
